@@ -175,3 +175,36 @@ Proof.
   - intros Hn [[cx cy] cz] _. cbn [half3]. destruct n as [|m]; [contradiction Hn; reflexivity|].
     cbn [Nat.pred]. apply enc3_parent. assumption.
 Qed.
+
+(* ------------------------------------ the check at every cell of the grid *)
+Lemma in_all_cells2 n c : In c (all_cells2 n) -> in_grid2 n c.
+Proof.
+  unfold all_cells2. cbv zeta. rewrite in_flat_map. intros [x [Hx Hc]].
+  apply in_map_iff in Hc. destruct Hc as [y [E Hy]]. subst c.
+  apply in_map_iff in Hx. destruct Hx as [i [Ei Hi]]. apply in_map_iff in Hy. destruct Hy as [j [Ej Hj]].
+  apply in_seq in Hi. apply in_seq in Hj. split; cbn [fst snd]; lia.
+Qed.
+
+Theorem check_table2_sound n g gp : curve_ok2 n g gp -> check_table2 n g gp = true.
+Proof.
+  intros OK. unfold check_table2. apply forallb_forall. intros [x y] Hc.
+  apply in_all_cells2 in Hc. destruct Hc as [Hx Hy]. cbn [fst snd] in *.
+  apply check_cell2_sound; assumption.
+Qed.
+
+Lemma in_all_cells3 n c : In c (all_cells3 n) -> in_grid3 n c.
+Proof.
+  unfold all_cells3. cbv zeta. rewrite in_flat_map. intros [x [Hx Hc]].
+  apply in_flat_map in Hc. destruct Hc as [y [Hy Hc]].
+  apply in_map_iff in Hc. destruct Hc as [z [E Hz]]. subst c.
+  apply in_map_iff in Hx. destruct Hx as [i [Ei Hi]]. apply in_map_iff in Hy. destruct Hy as [j [Ej Hj]].
+  apply in_map_iff in Hz. destruct Hz as [k [Ek Hk]].
+  apply in_seq in Hi. apply in_seq in Hj. apply in_seq in Hk. unfold in_grid3. lia.
+Qed.
+
+Theorem check_table3_sound n g gp : curve_ok3 n g gp -> check_table3 n g gp = true.
+Proof.
+  intros OK. unfold check_table3. apply forallb_forall. intros [[x y] z] Hc.
+  apply in_all_cells3 in Hc. destruct Hc as [Hx [Hy Hz]].
+  apply check_cell3_sound; assumption.
+Qed.
